@@ -13,6 +13,8 @@ VERIF = os.path.dirname(os.path.dirname(os.path.abspath(__file__)))
 REPO = os.environ.get("VERIF_REPO", "/repo")
 SEED = int(os.environ.get("VERIF_SEED", "0") or 0)
 GUARD = "GINJAX_VERIF"
+EVID_DIR = os.environ.get("VERIF_EVIDENCE_DIR", os.path.join(VERIF, "evidence"))     # self-tests redirect these
+REPLAY_DIR = os.environ.get("VERIF_REPLAY_DIR", os.path.join(VERIF, "replay"))
 
 
 def setup_repo_path():
@@ -122,7 +124,7 @@ class Check:
             self.samples.append(sample)
 
     def write_replay(self, payload: dict, tag="") -> str:
-        d = os.path.join(VERIF, "replay", self.prop)
+        d = os.path.join(REPLAY_DIR, self.prop)
         os.makedirs(d, exist_ok=True)
         payload = dict(payload)
         payload.update({"property": self.prop, "seed": SEED, "tier": self.tier, "repo_rev": repo_rev()})
@@ -180,8 +182,8 @@ class Check:
             "wall_s": round(time.time() - self.t0, 2),
             "violations": len(self.violations),
         }
-        os.makedirs(os.path.join(VERIF, "evidence"), exist_ok=True)
-        with open(os.path.join(VERIF, "evidence", self.prop + ".json"), "w") as f:
+        os.makedirs(EVID_DIR, exist_ok=True)
+        with open(os.path.join(EVID_DIR, self.prop + ".json"), "w") as f:
             json.dump(ev, f, indent=1, default=str)
         print("%s tier=%s: states=%d transitions=%d replayed/validated=%d evaluations=%d distinct=%d violations=%d known=%d wall=%.1fs"
               % (self.prop, self.tier, self.states, self.transitions, self.traces, self.evaluations,
